@@ -6,10 +6,11 @@
 
    Every function takes the hash function [h : list N -> N] (= the bytes fed to one
    DefaultHasher, then `finish()`) as an argument; the implementation is the instance
-   [h := sip13] (Lib/SipHash.v; [sip13f] of Lib/SipHashFast.v is the same function,
-   proved, and is what the correspondence executes).  `u64::hash` feeds the 8
-   little-endian bytes [le64f x] (= Lib.SipHash.le64 x, proved).  A Rust `&HashMap<String, ReplicatedValue>` is the list of
-   its entries IN ITERATION ORDER (the hidden oracle); theorems quantify over that order. *)
+   [h := sip13] (Lib/SipHash.v; [sip13f] of Lib/SipHashFast.v is the same function, proved).
+   `u64::hash` feeds the 8 little-endian bytes [le64f x] (= Lib.SipHash.le64 x, proved).
+   A Rust `&HashMap<String, ReplicatedValue>` is the list of its entries IN ITERATION
+   ORDER (the hidden oracle); theorems quantify over that order.  The merged values come
+   from Model/Crdt.v ([rv_merge]). *)
 From stdpp Require Import gmap sorting.
 From Coq Require Import NArith.
 From RV Require Import Lib.Hex Lib.SipHash Lib.SipHashFast Model.Crdt.
@@ -56,7 +57,9 @@ Definition node_empty : node := Node 0 0 0.
 
 (* the order in which from_digests hashes a bucket's digests: ascending in
    (key_hash, value_hash, timestamp)  — `sort_unstable_by_key` on that tuple (the repair
-   recorded as fixed:C18-digest-order; before it this was the caller's order). *)
+   recorded as fixed:C18-digest-order; before it this was the caller's order, i.e.
+   [bucket_order ds = ds]).  The tuple is the whole KeyDigest, so the order is total and
+   antisymmetric: every sorting algorithm returns the same list (merge sort here). *)
 Definition kd_leb (a b : kdigest) : bool :=
   (kd_key a <? kd_key b) ||
   ((kd_key a =? kd_key b) &&
